@@ -16,6 +16,9 @@ def _code_of(f):
     seen = 0
     while seen < 6:
         seen += 1
+        if hasattr(f, "__wrapped__"):
+            f = f.__wrapped__  # the body, not a functools.wraps wrapper around it
+            continue
         if hasattr(f, "__code__"):
             return f.__code__
         for attr in ("__wrapped__", "__func__", "func", "fget"):
